@@ -142,7 +142,7 @@ def prepare_crate(tag, modules, contract_groups):
         if not os.path.exists(p):
             raise Undecided("module file %s missing" % rel)
         with open(p, "a") as f:
-            f.write('\n#[cfg(kani)]\n#[path = "%s"]\nmod %s;\n' % (os.path.join(hdir, m), modname))
+            f.write('\n#[cfg(kani)]\n#[path = "%s"]\npub(crate) mod %s;\n' % (os.path.join(hdir, m), modname))
         report["appended_modules"].append({"harness": "kani/" + m, "child_of": rel, "as": modname})
     return crate, report
 
